@@ -36,6 +36,10 @@ def readBool : R Bool := fun d p =>
   | .ok (n, p') => .ok (n != 0, p')
   | .error e => .error e
 
+/-- `fp.read(n)` with a declared size `n ≥ 0` taken from the stream (lenient; `OverflowError` from `2^63` on, as
+`Codec.readPy` has it) -/
+def readSized (n : Nat) : R B := readPy (n : Int)
+
 /-- `nx` inside a format that is read: the bytes must be there (`read_fmt` is exact), their value is ignored -/
 def readSkip (n : Nat) : R Unit := fun d p =>
   match readN n d p with
